@@ -52,12 +52,12 @@ func h12Field(tag string, allowNeg bool) ([]byte, int) {
 }
 
 type h12Expect struct {
-	x, y          int
-	mod           ModMask
-	btnKnown      bool
-	btn           ButtonMask
-	heldKnown     bool
-	held          bool
+	x, y      int
+	mod       ModMask
+	btnKnown  bool
+	btn       ButtonMask
+	heldKnown bool
+	held      bool
 }
 
 func h12Clip(v, lim int) int {
